@@ -50,7 +50,7 @@ func runC23(outer *testing.T) func(t rapid.TB, c Case, rec *vx.Case) {
 				tipBad++
 				rec.Class("edge-bad-time-%s", st.Op.TM)
 			}
-			for h := range st.Post.Cons {
+			for _, h := range hs {
 				if _, ok := st.Pre.Cons[h]; !ok {
 					vx.Violatef(t, rec, id, "bad-time-stored", "a header with time %d outside (%d,%d) of its neighbours stored height %s; %s", st.Hdr.Ts, st.PrevTs, st.NextTs, h, describe(st))
 				}
